@@ -193,12 +193,14 @@ PROPS = {
                  "tagged payloads from 1-4 goroutines (sequential and concurrent phases), handlers that (un)subscribe themselves or others, publish "
                  "nested events or call into the stack; every operation is logged with start/end stamps and judged by the interval oracle (must / "
                  "must-not / either, never twice); watchdog on every Publish. Core-first: with a connected peer, the core handler's datagrams are on "
-                 "the writer before an application handler starts handling the device-add event and when the injecting call returns. Non-trivial: a "
+                 "the writer before an application handler starts handling the device-add event and when the injecting call returns; the same with "
+                 "2-3 local devices in the process (several core handlers that subscribe with their first and unsubscribe with their last connection). Non-trivial: a "
                  "must-deliver pair exists and an (un)subscription lies between two publications or re-entrancy was executed. Distinct by plan hash."),
         "assumptions": ["a Publish that does not return within 10 s with goroutines parked in spine-go locks is a deadlock; a bare time-out is inconclusive"],
         "runs": [
             {"name": "bus", "run": "TestBusHistories", "kind": "rapid", "checks": {Q: 8000, T: 1000000}, "shards": {Q: 4, T: 16}},
             {"name": "corefirst", "run": "TestCoreFirst", "kind": "rapid", "checks": {Q: 4000, T: 600000}, "shards": {Q: 4, T: 16}},
+            {"name": "multicore", "run": "TestSeveralCoreHandlers", "kind": "rapid", "checks": {Q: 3000, T: 400000}, "shards": {Q: 4, T: 16}},
             {"name": "oracle", "run": "TestOracle", "kind": "plain"},
             {"name": "coreconcurrent", "run": "TestCoreFirstConcurrent", "kind": "plain", "shards": {Q: 2, T: 8}, "env": {"VERIF_ROUNDS": {Q: 300, T: 3000}}},
         ],
